@@ -222,6 +222,10 @@ def fan_out(func, tasks, jobs: int | None = None, mem_gib: float | None = 8.0, s
     total = Tally()
     if not tasks:
         return total
+    sl = int(os.environ.get("VERIF_SLICE", "1") or 1)
+    if sl > 1 and len(tasks) > 1:
+        # the second-interpreter pass of the expensive checks runs every sl-th partition of every fan-out (at least one)
+        tasks = tasks[(seed % sl)::sl] or tasks[:1]
     jobs = jobs or int(os.environ.get("VERIF_JOBS", "0")) or min(16, os.cpu_count() or 1)
     jobs = max(1, min(jobs, len(tasks)))
     # the seed only rotates the order in which workers receive partitions
